@@ -2,6 +2,7 @@ import QipVerif.Util.GateIO
 import QipVerif.Gen.GateDefsF
 import QipVerif.Model.Ctrl
 import QipVerif.Gen.GateCtor
+import QipVerif.Model.CircHeap
 /-! Driver for the exact gate library and exact denotation (C09, C01, C03 share it).
 
 * `gate name=NAME n8=K`          → `ok m e|rows` exact compact matrix of the gate with angle K·π/8
@@ -101,6 +102,43 @@ def ctorStep (fs : List String) : String :=
             head ++ s!"block {res.K} " ++ ";".intercalate rows
   | _, _, _, _, _, _ => "bad-op"
 
+/-- `heap ops=<op>;<op>;… probes=T,X` — the model of circuit objects and their user_gates dictionaries (Model/CircHeap.lean).
+ops: `D` QubitCircuit(N) | `L<name>:<tag>,…` (or `L`) a dict literal | `W<d>` QubitCircuit(N, user_gates=dict d) |
+`S<c>:<name>:<tag>` circuit c .user_gates[name] = custom | `A<dst>:<src>:<0|1>` add_circuit(overwrite).
+Answer: `ok c0=T:7,X:-|c1=…`: for every circuit and probe name the tag of the custom matrix it resolves to, `-` = library -/
+def heapOp? (t : String) : Option CircHeap.Op :=
+  let body := (t.drop 1).toString
+  if t == "D" then some .newDefault
+  else if t.startsWith "L" then
+    ((splitNE body ",").mapM fun (kv : String) =>
+      match kv.splitOn ":" with
+      | [k, v] => (String.toNat? v).map fun n => (k, n)
+      | _ => none).map CircHeap.Op.newDict
+  else if t.startsWith "W" then body.toNat?.map CircHeap.Op.newWith
+  else if t.startsWith "S" then
+    match body.splitOn ":" with
+    | [c, k, v] => match c.toNat?, v.toNat? with
+      | some c, some v => some (.setUser c k v)
+      | _, _ => none
+    | _ => none
+  else if t.startsWith "A" then
+    match body.splitOn ":" with
+    | [a, b, o] => match a.toNat?, b.toNat? with
+      | some a, some b => some (.addCircuit a b (o == "1"))
+      | _, _ => none
+    | _ => none
+  else none
+
+def heapStep (fs : List String) : String :=
+  match (fStr? fs "ops").bind (fun s => (splitNE s ";").mapM heapOp?), fStr? fs "probes" with
+  | some ops, some ps =>
+    let h := CircHeap.run ⟨[], []⟩ ops
+    let names := splitNE ps ","
+    "ok " ++ "|".intercalate ((List.range h.circ.length).map fun c =>
+      s!"c{c}=" ++ ",".intercalate (names.map fun nm =>
+        nm ++ ":" ++ (match CircHeap.resolve h c nm with | some t => toString t | none => "-")))
+  | _, _ => "bad-op"
+
 def step (line : String) : String :=
   let fs := fields line
   match fs.head? with
@@ -142,6 +180,7 @@ def step (line : String) : String :=
           s!"ok {r.K} " ++ ";".intercalate rows
     | _, _, _, _ => "bad-op"
   | some "ctor" => ctorStep fs
+  | some "heap" => heapStep fs
   | _ => "bad-op"
 
 def main : IO Unit := serve step
